@@ -225,9 +225,14 @@ Inductive aout :=
 | AAck (ok : bool)
 | ASet (s : nset).      (* forward: the alias set; reverse: the set of indexes the answer is taken from *)
 
-(* the per-tenant alias directory exists only for tenant 0 (aliases/ itself); nothing creates
-   aliases/<org>/, so writeAliasFile fails for every other tenant *)
-Definition adir_exists (t : tenant) : bool := N.eqb t 0.
+(* the alias files of tenant 0 lie in aliases/ itself (created by InitVTable); those of another
+   tenant in aliases/<org>/, which siglens never creates: writeAliasFile fails for a tenant whose
+   directory the deployment has not provided.  WHICH tenants have a directory is a fact of the
+   environment: every definition below takes it as the (implicit) argument [D : Dirs], and every
+   theorem about the alias store holds for ALL D (D = [] is the single-tenant deployment, D = [5; 7]
+   one where the tenants 0, 5 and 7 can own aliases). *)
+Class Dirs := alias_dirs : list tenant.
+Definition adir_exists {D : Dirs} (t : tenant) : bool := N.eqb t 0 || existsb (N.eqb t) alias_dirs.
 
 Definition rev_add_all (idx : list N) (als : nset) (r : nmap) : nmap :=
   fold_left (fun r al => nm_put al (ns_add idx (nm_get al r)) r) als r.
@@ -251,7 +256,7 @@ Definition flush_targets (rm : nmap) : list (list N) := flat_map snd rm.
 Definition flush_tenant (rm fm : nmap) : nmap :=
   fold_left (fun fm idx => nm_put idx (inv_set idx rm) fm) (flush_targets rm) fm.
 
-Definition flush_rev (s : astore) : list (tenant * nmap) :=
+Definition flush_rev {D : Dirs} (s : astore) : list (tenant * nmap) :=
   fold_left (fun files tr =>
     let t := fst tr in
     if adir_exists t then t_put t (flush_tenant (t_nm t (arev s)) (t_nm t files)) files
@@ -267,7 +272,7 @@ Definition rebuild_rev_prefix (files : list (tenant * nmap)) : list (tenant * nm
     t_put t (fold_left (fun r ia => rev_add_all (fst ia) (snd ia) r) fm (t_nm t acc)) acc)
     files [].
 
-Definition flush_rev_prefix (s : astore) : list (tenant * nmap) :=
+Definition flush_rev_prefix {D : Dirs} (s : astore) : list (tenant * nmap) :=
   fold_left (fun files tr =>
     let '(t, rm) := tr in
     if adir_exists t then
@@ -275,7 +280,7 @@ Definition flush_rev_prefix (s : astore) : list (tenant * nmap) :=
     else files)
     (arev s) (afiles s).
 
-Definition astep (s : astore) (o : aop) : astore * aout :=
+Definition astep {D : Dirs} (s : astore) (o : aop) : astore * aout :=
   match o with
   | AAdd t idx al =>
     let cur := ns_add al (nm_get idx (t_nm t (afiles s))) in
@@ -310,7 +315,7 @@ Definition astep (s : astore) (o : aop) : astore * aout :=
     let files := flush_rev s in (mkAStore files (rebuild_rev files), AAck true)
   end.
 
-Definition astep_prefix (s : astore) (o : aop) : astore * aout :=
+Definition astep_prefix {D : Dirs} (s : astore) (o : aop) : astore * aout :=
   match o with
   | ACrashRestart => (mkAStore (afiles s) (rebuild_rev_prefix (afiles s)), AAck true)
   | AShutdownRestart =>
@@ -318,20 +323,20 @@ Definition astep_prefix (s : astore) (o : aop) : astore * aout :=
   | _ => astep s o
   end.
 
-Fixpoint arun_prefix (ops : list aop) (s : astore) : astore :=
+Fixpoint arun_prefix {D : Dirs} (ops : list aop) (s : astore) : astore :=
   match ops with [] => s | o :: r => arun_prefix r (fst (astep_prefix s o)) end.
 
-Fixpoint arun (ops : list aop) (s : astore) : astore :=
+Fixpoint arun {D : Dirs} (ops : list aop) (s : astore) : astore :=
   match ops with [] => s | o :: r => arun r (fst (astep s o)) end.
 
-Fixpoint arun_out (ops : list aop) (s : astore) : list aout :=
+Fixpoint arun_out {D : Dirs} (ops : list aop) (s : astore) : list aout :=
   match ops with [] => [] | o :: r => snd (astep s o) :: arun_out r (fst (astep s o)) end.
 
 (* specification of the alias store: forward map (tenant, index) -> alias set; the reverse
    lookup is derived from it *)
 Definition aspec := tenant -> list N -> nset.
 
-Definition aspec_step (f : aspec) (o : aop) : aspec :=
+Definition aspec_step {D : Dirs} (f : aspec) (o : aop) : aspec :=
   match o with
   | AAdd t idx al =>
     if adir_exists t then
@@ -342,7 +347,7 @@ Definition aspec_step (f : aspec) (o : aop) : aspec :=
   | _ => f
   end.
 
-Fixpoint aspec_run (ops : list aop) (f : aspec) : aspec :=
+Fixpoint aspec_run {D : Dirs} (ops : list aop) (f : aspec) : aspec :=
   match ops with [] => f | o :: r => aspec_run r (aspec_step f o) end.
 
 Definition aabs (s : astore) : aspec := fun t idx => nm_get idx (t_nm t (afiles s)).
@@ -351,3 +356,58 @@ Definition is_restart (o : aop) : bool :=
   match o with ACrashRestart | AShutdownRestart => true | _ => false end.
 Definition is_shutdown (o : aop) : bool :=
   match o with AShutdownRestart => true | _ => false end.
+
+(* the operations that concern tenant t: its own adds/removes/reads, and every restart *)
+Definition aop_for (t : tenant) (o : aop) : bool :=
+  match o with
+  | AAdd t' _ _ | ARemove t' _ _ | AGetIndex t' _ | AIsAlias t' _ => N.eqb t' t
+  | ACrashRestart | AShutdownRestart => true
+  end.
+
+(* VARIANT kept for the record (refuted in KvStoreProofs with a two-tenant witness): the scratch
+   map index -> aliases of FlushAliasMapToFile allocated ONCE, outside the loop over the tenants.
+   It is then not reset between tenants: the second, third, ... tenant of the loop also gets the
+   <index>.json files of the tenants flushed before it (merged where two tenants share an index
+   name).  [inv_merge] is the inner double loop `indexToAliases[index][alias] = true`, [write_all]
+   the loop of writeAliasFile calls over the scratch map. *)
+Definition inv_merge (rm scratch : nmap) : nmap :=
+  fold_left (fun sc ai =>
+    fold_left (fun sc idx => nm_put idx (ns_add (fst ai) (nm_get idx sc)) sc) (snd ai) sc) rm scratch.
+
+Definition write_all (scratch fm : nmap) : nmap :=
+  fold_left (fun fm ia => nm_put (fst ia) (snd ia) fm) scratch fm.
+
+Definition flush_rev_shared {D : Dirs} (s : astore) : list (tenant * nmap) :=
+  fst (fold_left (fun acc tr =>
+    let t := fst tr in
+    let scratch := inv_merge (t_nm t (arev s)) (snd acc) in
+    (if adir_exists t then t_put t (write_all scratch (t_nm t (fst acc))) (fst acc) else fst acc, scratch))
+    (arev s) (afiles s, [])).
+
+(* the same loop with the scratch map allocated per tenant (what the code does), in the shape of
+   the code; [flush_rev] above is the form the proofs use *)
+Definition flush_rev_scoped {D : Dirs} (s : astore) : list (tenant * nmap) :=
+  fold_left (fun files tr =>
+    let t := fst tr in
+    if adir_exists t then t_put t (write_all (inv_merge (t_nm t (arev s)) []) (t_nm t files)) files else files)
+    (arev s) (afiles s).
+
+Definition astep_shared {D : Dirs} (s : astore) (o : aop) : astore * aout :=
+  match o with
+  | AShutdownRestart =>
+    let files := flush_rev_shared s in (mkAStore files (rebuild_rev files), AAck true)
+  | _ => astep s o
+  end.
+
+Fixpoint arun_shared {D : Dirs} (ops : list aop) (s : astore) : astore :=
+  match ops with [] => s | o :: r => arun_shared r (fst (astep_shared s o)) end.
+
+Definition astep_scoped {D : Dirs} (s : astore) (o : aop) : astore * aout :=
+  match o with
+  | AShutdownRestart =>
+    let files := flush_rev_scoped s in (mkAStore files (rebuild_rev files), AAck true)
+  | _ => astep s o
+  end.
+
+Fixpoint arun_scoped {D : Dirs} (ops : list aop) (s : astore) : astore :=
+  match ops with [] => s | o :: r => arun_scoped r (fst (astep_scoped s o)) end.
